@@ -41,6 +41,7 @@ WEIGHTS = {
     'addpack_off': 2,
     'addfail': 2,
     'nested': 2,
+    'stale_lock': 1,
 }
 
 
